@@ -171,21 +171,25 @@ class MemoryPoolList {
   }
 
   Pool* addPool(Allocator* allocator) {
+    if (count_ >= maxPools)  // all the slot ids are in use
+      return nullptr;
     if (count_ == capacity_ && !increaseCapacity(allocator))
       return nullptr;
     auto pool = &pools_[count_++];
     SlotCount poolCapacity = ARDUINOJSON_POOL_CAPACITY;
     if (count_ == maxPools)  // last pool is smaller because of NULL_SLOT
-      poolCapacity--;
+      poolCapacity = lastPoolCapacity;
     pool->create(poolCapacity, allocator);
     return pool;
   }
 
   bool increaseCapacity(Allocator* allocator) {
-    if (capacity_ == maxPools)
+    if (capacity_ >= maxPools)
       return false;
     void* newPools;
-    auto newCapacity = PoolCount(capacity_ * 2);
+    // the capacity is not always a power of two (see shrinkToFit())
+    auto newCapacity =
+        capacity_ > maxPools / 2 ? maxPools : PoolCount(capacity_ * 2);
 
     if (pools_ == preallocatedPools_) {
       newPools = allocator->allocate(newCapacity * sizeof(Pool));
@@ -210,8 +214,13 @@ class MemoryPoolList {
   SlotId freeList_ = NULL_SLOT;
 
  public:
+  // number of pools needed to hand out the slot ids 0..NULL_SLOT-1
   static const PoolCount maxPools =
-      PoolCount(NULL_SLOT / ARDUINOJSON_POOL_CAPACITY + 1);
+      PoolCount(NULL_SLOT / ARDUINOJSON_POOL_CAPACITY +
+                (NULL_SLOT % ARDUINOJSON_POOL_CAPACITY ? 1 : 0));
+
+  static const SlotCount lastPoolCapacity =
+      SlotCount(NULL_SLOT - (maxPools - 1) * ARDUINOJSON_POOL_CAPACITY);
 };
 
 ARDUINOJSON_END_PRIVATE_NAMESPACE
